@@ -408,6 +408,32 @@ def run(ctx, rep):
         else:
             rep.violation("C05.11", cons, "`fill_in_let(c, {'a': float('inf')})` yields a circuit containing `Rz r[0] inf`, whose generated text the parser rejects (and with NaN and a let named nan it silently re-parses to another circuit)", f.loc(), witness="fill_in_let(circuit, {'a': float('inf')})")
 
+    # ------------------------------------------------------------ C05.12
+    rep.rule("C05.12", "let substitution never truncates a substituted value: no int()/round() of a resolved constant without an integrality test (a non-integral override used as an index or count must be refused, not rounded)", floor=1)
+    n12 = 0
+    for v_, t_ in trs:
+        for f in t_.funcs:
+            fl_ = t_.flows[f.qualname]
+            for c in walk_no_nested(f.node):
+                if not (isinstance(c, ast.Call) and isinstance(c.func, ast.Name) and c.func.id in ("int", "round", "floor", "trunc") and c.args):
+                    continue
+                a0 = c.args[0]
+                ids_, roots_ = fl_.depends(a0)
+                exprs = [a0] + list(roots_)
+                from_const = any(isinstance(m, ast.Call) and isinstance(m.func, ast.Attribute) and m.func.attr in ("resolve_constant", "visit", "visit_Constant") for e in exprs for m in ast.walk(e)) or any(isinstance(m, ast.Attribute) and m.attr == over_attr for e in exprs for m in ast.walk(e))
+                if not from_const:
+                    continue
+                n12 += 1
+                tests = fl_.control_tests(c)
+                integral = any((isinstance(m, ast.Call) and isinstance(m.func, ast.Attribute) and m.func.attr == "is_integer") or (isinstance(m, ast.Compare) and any(isinstance(k, ast.Call) and isinstance(k.func, ast.Name) and k.func.id == "int" for k in ast.walk(m))) for t in tests for m in ast.walk(t))
+                cons = construct_of(f, f"truncation:{ast.unparse(c)[:40]}")
+                if integral:
+                    rep.ok("C05.12", cons, "conversion under an integrality test", f"{f.path}:{c.lineno}")
+                else:
+                    rep.violation("C05.12", cons, f"`{ast.unparse(c)}` truncates the substituted value: an override of 1.5 for an index becomes 1 and the gate runs on another qubit instead of the override being refused", f"{f.path}:{c.lineno}", witness="let n 0 ... Px q[n]   with override {'n': 1.5}")
+    if n12 == 0:
+        rep.ok("C05.12", "core.algorithm.fill_in_let:truncation", "no conversion of a substituted value")
+
     # ------------------------------------------------------------ C05.4
     rep.rule("C05.4", "IR constructor arguments that must be objects never receive an S-expression from a visit", floor=2)
     consumers = {}  # handler qualname -> (handler, stmt, [consumer descriptions])
